@@ -169,7 +169,7 @@ fn call_strategy() -> BoxedStrategy<Call> {
     (crate::checks::c01::fmt_strategy(), proptest::collection::vec((doc_for_toml(), style_strategy(), any::<u8>()), 1..4), mode_strategy())
         .prop_map(|(fmt, docs, mode)| {
             let n = if fmt == Fmt::Toml { 1 } else { docs.len() };
-            Call { input: InputSpec { fmt, docs: docs.into_iter().take(n).map(|(v, style, sep)| DocSpec { v, style, sep, boundary: None }).collect(), mode } }
+            Call { input: InputSpec { fmt, docs: docs.into_iter().take(n).map(|(v, style, sep)| DocSpec { v, style, sep, boundary: None }).collect(), mode, detect: false, empty_variant: 0 } }
         })
         .boxed()
 }
@@ -195,6 +195,8 @@ fn history_from_json(j: &J) -> Option<History> {
                     input: InputSpec {
                         fmt: Fmt::from_name(c["fmt"].as_str()?)?,
                         mode: Mode::from_json(&c["mode"])?,
+                        detect: false,
+                        empty_variant: 0,
                         docs: c["docs"]
                             .as_array()?
                             .iter()
@@ -413,7 +415,7 @@ impl Check for C08 {
                                     if !writable(&doc, fmt) {
                                         continue;
                                     }
-                                    let h = History { calls: vec![Call { input: InputSpec { fmt, docs: vec![DocSpec { v: doc.clone(), style: style.clone(), sep: 0, boundary: None }], mode: if idx % 2 == 0 { Mode::Slice } else { Mode::Reader(crate::sio::Sched::Fixed(3)) } } }] };
+                                    let h = History { calls: vec![Call { input: InputSpec { fmt, docs: vec![DocSpec { v: doc.clone(), style: style.clone(), sep: 0, boundary: None }], mode: if idx % 2 == 0 { Mode::Slice } else { Mode::Reader(crate::sio::Sched::Fixed(3)) }, detect: false, empty_variant: 0 } }] };
                                     r.class(&format!("paths:{}", kind));
                                     if let Err(m) = check_history(&h, r) {
                                         *cell.borrow_mut() = Some(history_json(&h));
